@@ -11,7 +11,11 @@ rc_all = 0
 try:
     r = subprocess.run(["git", "-C", str(wt), "apply", str(patch)])
     if r.returncode != 0:
-        print("PATCH DOES NOT APPLY"); sys.exit(9)
+        # the patch was written against the original snapshot; fall back to a 3-way merge onto the repaired tree
+        r = subprocess.run(["git", "-C", str(wt), "apply", "-3", str(patch)])
+        if r.returncode != 0:
+            print("PATCH DOES NOT APPLY"); sys.exit(9)
+        print("(patch applied with 3-way merge)")
     broot = wt / ".vbuild"
     seed = Path("/verif/.build/plain")
     dst = broot / "plain"; dst.mkdir(parents=True)
